@@ -428,6 +428,9 @@ func (g *Gen) transCall(x *Expr, env *Env) TV {
 	case "unboxstr":
 		a := g.trans(x.Args[0], env)
 		return TV{"(unbox.Str " + a.T + ")", SStr, types.Typ[types.String]}
+	case "unboxslc":
+		a := g.trans(x.Args[0], env)
+		return TV{"(unbox.Slc " + a.T + ")", SSlc, types.NewSlice(types.Typ[types.Uint8])}
 	case "unboxint":
 		a := g.trans(x.Args[0], env)
 		return TV{"(unbox.Int " + a.T + ")", SInt, types.Typ[types.Int]}
